@@ -268,32 +268,47 @@ orc_x86_load_constants_outer (OrcX86Target *t, OrcCompiler *c)
   orc_compiler_emit_invariants (c);
   orc_x86_init_constants (t, c);
 
-  /* FIXME ldreslinb, ldreslinl, ldresnearb, ldresnearl
-   * are special opcodes that require more initialization
-   * but their flags are shared among more opcodes. These
-   * opcodes should have specific flags to proceed accordingly
-   */
+}
 
-  {
-    for (int i = 0; i < c->n_insns; i++) {
-      OrcInstruction *insn = c->insns + i;
-      OrcStaticOpcode *opcode = insn->opcode;
+/* ldreslinb, ldreslinl, ldresnearb, ldresnearl keep the position in the
+ * source as 16.16 fixed point in ptr_offset and expect it to be below 1.0
+ * when a step begins: every row starts at the start position given by the
+ * second operand, whose integer part goes into the pointer.
+ * FIXME these opcodes should have specific flags instead of being found by
+ * name */
+static void
+orc_x86_load_resample_offsets (OrcCompiler *c)
+{
+  for (int i = 0; i < c->n_insns; i++) {
+    OrcInstruction *insn = c->insns + i;
+    OrcStaticOpcode *opcode = insn->opcode;
+    OrcVariable *src;
+    int shift;
 
-      if (strcmp (opcode->name, "ldreslinb") == 0
-          || strcmp (opcode->name, "ldreslinl") == 0
-          || strcmp (opcode->name, "ldresnearb") == 0
-          || strcmp (opcode->name, "ldresnearl") == 0) {
-        if (c->vars[insn->src_args[1]].vartype == ORC_VAR_TYPE_PARAM) {
-          orc_x86_emit_mov_memoffset_reg (c, 4,
-              (int)ORC_STRUCT_OFFSET (OrcExecutor, params[insn->src_args[1]]),
-              c->exec_reg, c->vars[insn->src_args[0]].ptr_offset);
-        } else {
-          orc_x86_emit_mov_imm_reg (c, 4,
-              c->vars[insn->src_args[1]].value.i,
-              c->vars[insn->src_args[0]].ptr_offset);
-        }
-      }
+    if (strcmp (opcode->name, "ldreslinb") == 0
+        || strcmp (opcode->name, "ldresnearb") == 0) {
+      shift = 0;
+    } else if (strcmp (opcode->name, "ldreslinl") == 0
+        || strcmp (opcode->name, "ldresnearl") == 0) {
+      shift = 2;
+    } else {
+      continue;
     }
+
+    src = c->vars + insn->src_args[0];
+    if (c->vars[insn->src_args[1]].vartype == ORC_VAR_TYPE_PARAM) {
+      orc_x86_emit_mov_memoffset_reg (c, 4,
+          (int)ORC_STRUCT_OFFSET (OrcExecutor, params[insn->src_args[1]]),
+          c->exec_reg, src->ptr_offset);
+    } else {
+      orc_x86_emit_mov_imm_reg (c, 4,
+          c->vars[insn->src_args[1]].value.i, src->ptr_offset);
+    }
+    orc_x86_emit_mov_reg_reg (c, 4, src->ptr_offset, c->gp_tmpreg);
+    orc_x86_emit_sar_imm_reg (c, 4, 16, c->gp_tmpreg);
+    orc_x86_emit_add_reg_reg_shift (c, c->is_64bit ? 8 : 4, c->gp_tmpreg,
+        src->ptr_register, shift);
+    orc_x86_emit_and_imm_reg (c, 4, 0xffff, src->ptr_offset);
   }
 }
 
@@ -324,6 +339,8 @@ orc_x86_load_constants_inner (OrcCompiler *c)
         break;
     }
   }
+
+  orc_x86_load_resample_offsets (c);
 }
 
 static void
